@@ -2,6 +2,8 @@ package rules
 
 import (
 	"fmt"
+	"go/token"
+	"go/types"
 	"strings"
 
 	"golang.org/x/tools/go/ssa"
@@ -102,4 +104,89 @@ func c04DatagramBuffers(c *Ctx) {
 		}
 	}
 	c.Floor("datagram-buffer-per-connection", 2, "socket and agent listeners build DummyUDPConn literals")
+}
+
+// c04PendingInput: a handler-side line editor keeps the bytes it has read from the connection but not yet consumed in a
+// field (telnet Terminal.remainder: "what followed the line just returned"). Emptying that field is only legitimate where a
+// dominating test shows that nothing is pending; anywhere else the bytes a client pipelined behind the current line are
+// thrown away and the commands they contain are never captured.
+func c04PendingInput(c *Ctx) {
+	p := c.P
+	for _, tb := range []struct{ rel, typ, field string }{{"services/telnet", "Terminal", "remainder"}} {
+		nt := p.Type(tb.rel, tb.typ)
+		if !c.Anchor(nt != nil, "pending-input-not-discarded", tb.rel+"."+tb.typ) {
+			continue
+		}
+		n, nEmpty := 0, 0
+		for _, fn := range p.FuncsIn(tb.rel) {
+			for _, b := range fn.Blocks {
+				for _, in := range b.Instrs {
+					st, ok := in.(*ssa.Store)
+					if !ok {
+						continue
+					}
+					fa, ok := st.Addr.(*ssa.FieldAddr)
+					if !ok || NamedOf(fa.X.Type()) != nt || fieldNameOf(fa) != tb.field {
+						continue
+					}
+					if _, isLit := fa.X.(*ssa.Alloc); isLit {
+						continue // constructor
+					}
+					n++
+					empties := IsNilConst(st.Val)
+					if sl, ok := st.Val.(*ssa.Slice); ok {
+						if k, isK := ConstInt(sl.High); isK && k == 0 {
+							empties = true
+						}
+					}
+					if !empties {
+						continue
+					}
+					nEmpty++
+					key := fmt.Sprintf("%s.%s emptied in %s #%d", tb.typ, tb.field, shortFn(fn), nEmpty)
+					// dominated by len(x) > 0 == false / len(x) == 0 for data derived from the field in this function
+					pending := Taint(fn, pendingSeeds(fn, nt, tb.field), TaintOpts{CallResult: func(*ssa.Call, []int) bool { return true }})
+					okDom := false
+					for _, dc := range DomConds(st) {
+						bo, ok := dc.V.(*ssa.BinOp)
+						if !ok {
+							continue
+						}
+						lenOf := func(v ssa.Value) ssa.Value {
+							if call, ok := v.(*ssa.Call); ok {
+								if bi, ok := call.Call.Value.(*ssa.Builtin); ok && bi.Name() == "len" {
+									return call.Call.Args[0]
+								}
+							}
+							return nil
+						}
+						x := lenOf(bo.X)
+						k, isK := ConstInt(bo.Y)
+						if x == nil || !isK || k != 0 || !pending[x] {
+							continue
+						}
+						if (bo.Op == token.GTR && !dc.Pol) || (bo.Op == token.EQL && dc.Pol) || (bo.Op == token.NEQ && !dc.Pol) || (bo.Op == token.LEQ && dc.Pol) {
+							okDom = true
+						}
+					}
+					c.Check(okDom, "pending-input-not-discarded", key, p.InstrPos(st), "only where the pending input was just tested to be empty", "the field holding input that was read from the connection but not yet consumed is emptied without a dominating test that nothing is pending: whatever the client sent behind the current line in the same segment (pipelined commands) is discarded and never reported")
+				}
+			}
+		}
+		c.Check(n >= 2, "pending-input-not-discarded", tb.typ+"."+tb.field+" writers found", "-", fmt.Sprint(n), "the pending-input field has fewer writers than known (renamed?)")
+	}
+}
+
+func pendingSeeds(fn *ssa.Function, nt *types.Named, field string) []ssa.Value {
+	var out []ssa.Value
+	for _, b := range fn.Blocks {
+		for _, in := range b.Instrs {
+			if ld, ok := in.(*ssa.UnOp); ok && ld.Op == token.MUL {
+				if fa, ok := ld.X.(*ssa.FieldAddr); ok && NamedOf(fa.X.Type()) == nt && fieldNameOf(fa) == field {
+					out = append(out, ld)
+				}
+			}
+		}
+	}
+	return out
 }
